@@ -221,7 +221,10 @@ def default_predicate(chk, prop):
     """`!sc.tags.iter().chain(rule.iter().flat_map(|r| &r.tags)).chain(&feat.tags).any(|t| t == "allow.skipped")`
     decided for tag lists of length <= 2 per level, each tag's equality to "allow.skipped" a symbolic Boolean."""
     from checks import tagsets
-    body = chk.prog.find('fail_on_skipped.rs:204:1: 204:52>::from::{closure#0}')
+    frm = common.find_method(chk.prog, 'FailOnSkipped', 'from', 'From')
+    body = chk.prog.bodies.get(frm.name + '::{closure#0}')
+    if body is None:
+        raise Inconclusive('the default predicate closure of <FailOnSkipped as From>::from not found')
     tagsets.tag_predicate_obligation(chk, body, '%s.fail_on_skipped.default-predicate' % prop, 'allow.skipped',
                                      negate=True, arg_order=('feature', 'rule', 'scenario'), closure_self=True,
                                      confirm=lambda c, o: confirm_default_predicate(c, o, prop))
